@@ -624,6 +624,22 @@ impl<'a> Driver<'a> {
                         if f.class == FrameClass::ShapeOdd {
                             self.conns[c].close_checked = true;
                             self.mark_unknown_effects(&f);
+                            if info.quiet || matches!(f.req.opcode, 0x1e | 0x24) {
+                                // a quiet frame may have been passed silently: the close can be
+                                // this frame's or a later one's, after quiet successors were
+                                // executed. Whatever the remaining frames address is uncertain.
+                                let rest: Vec<Frame> = self.conns[c].frames[self.conns[c].next_frame..].to_vec();
+                                for r in &rest {
+                                    self.mark_unknown_effects(r);
+                                }
+                                let cs = &mut self.conns[c];
+                                while cs.next_frame < cs.frames.len() {
+                                    let i = cs.next_frame;
+                                    cs.frames[i].resolved = Some(Resolution::Unknown);
+                                    cs.next_frame += 1;
+                                }
+                                break;
+                            }
                         }
                         self.drop_rest(c);
                         break;
